@@ -45,8 +45,8 @@ func H_C13_try() {
 	c := ndChoice("catch", len(c13Catches))
 	host := ndChoice("host", 2)
 	fails := ndBool("fails")
-	nilData := ndBool("nilData")   // Execute called with nil data: '.' is invalid outside
-	outerE := ndBool("outerE")     // a variable named like the catch variable exists before the try
+	nilData := ndBool("nilData") // Execute called with nil data: '.' is invalid outside
+	outerE := ndBool("outerE")   // a variable named like the catch variable exists before the try
 	pn := 1
 	if vfTier() == 1 {
 		pn = 2
@@ -305,4 +305,60 @@ func H_C13_large() {
 	want += "B"
 	vfAssert(len(out) == len(want), "all-or-nothing for bodies larger than any buffer block")
 	vfAssert(out == want, "the bytes are those the body renders")
+}
+
+// H_C13_catchReturns: the catch body executes a return (directly, below an if, through an
+// included file) - as templates run by exec do to hand back a fallback value: the catch
+// variable is gone after the try statement all the same (an outer variable of that name is
+// visible again), the scopes of the enclosing constructs pair up (a variable declared by an
+// enclosing if is gone after that if), and exec evaluates to the returned value.
+//
+//gosym:reach rendered
+func H_C13_catchReturns() {
+	catches := []string{
+		`{{ catch e }}C{{ return "fb" }}`,
+		`{{ catch e }}C{{ if e != nil }}{{ return "fb" }}{{ end }}`,
+		`{{ catch e }}C{{ include "/ret.jet" }}`,
+		`{{ catch }}C{{ return "fb" }}`,
+		`{{ catch e }}C{{ x := 1 }}{{ return "fb" }}`,
+		`{{ catch e }}C`,
+	}
+	c := ndChoice("catch", len(catches))
+	body := c13Bodies[ndChoice("body", 4)]
+	viaExec := ndBool("viaExec")
+	outerE := ndBool("outerE")
+	decl := ""
+	eAfter := "unset"
+	if outerE {
+		decl, eAfter = `{{ e := "outerE" }}`, "outerE"
+	}
+	tmpl := decl + `{{ if q := 1; true }}{{ try }}p` + body + catches[c] + `{{ end }}[{{ isset(e) ? e : "unset" }}{{ isset(x) }}]{{ end }}|{{ isset(q) }}|{{ isset(e) ? e : "unset" }}|{{ . }}`
+	want := "C[" + eAfter + "false]|false|" + eAfter + "|D"
+	main := tmpl
+	if viaExec {
+		main = `<{{ exec("/t.jet") }}>`
+		if c == 5 {
+			want = "<>"
+		} else {
+			want = "<fb>"
+		}
+	}
+	set := hxSet(nil, "/m.jet", main, "/t.jet", tmpl, "/ret.jet", `{{ return "fb" }}`, "/inc.jet", `{{ mayFail() }}`)
+	vars := make(VarMap)
+	vars.Set("r", []string{"e1"})
+	vars.SetFunc("mayFail", hxFail)
+	out, err := hxExec(set, "/m.jet", vars, "D")
+	vfReach("rendered")
+	vfAssert(err == nil, "try never lets the body's error escape")
+	vfNote(out)
+	vfAssert(out == want, "a return in the catch body leaves the scopes paired up")
+	if viaExec {
+		// the template that called exec goes on with its own variables
+		o2, e2 := hxExec(hxSet(nil, "/m.jet", `{{ e := "mine" }}{{ exec("/t.jet") }}|{{ e }}|{{ isset(q) }}`, "/t.jet", tmpl, "/ret.jet", `{{ return "fb" }}`), "/m.jet", vars, "D")
+		v := "fb"
+		if c == 5 {
+			v = ""
+		}
+		vfAssert(e2 == nil && o2 == v+"|mine|false", "and so does its caller")
+	}
 }
